@@ -150,6 +150,12 @@ func GenNestedAnnot(idx int, withService bool) *ir.Request {
 				Fields: []*ir.Field{{Name: "id", Number: 1, Kind: "string"}, {Name: "leaf", Number: 2, Kind: "message", TypeName: P + "LeafN", Oneof: "content"}}},
 		}}
 	f.Messages = []*ir.Message{leaf, report}
+	// a second enum with the SAME SHORT NAME (State), nested in another message, with other custom values
+	shipment := &ir.Message{Name: "ParentShipment", Fields: []*ir.Field{
+		{Name: "state", Number: 1, Kind: "enum", TypeName: P + "ParentShipment.State"},
+		{Name: "history", Number: 2, Kind: "enum", TypeName: P + "ParentShipment.State", Card: "repeated"}},
+		Enums: []*ir.Enum{{Name: "State", Values: []ir.EnumValue{{Name: "STATE_UNKNOWN", Number: 0}, {Name: "STATE_MOVING", Number: 1, Custom: sp("in-transit")}, {Name: "STATE_DONE", Number: 2, Custom: sp("delivered")}}}}}
+	f.Messages = append(f.Messages, shipment)
 	if withService {
 		f.Services = []*ir.Service{{Name: "Nest", BasePath: "/nest", Methods: []*ir.Method{{Name: "Put", Input: P + "ParentReport", Output: P + "ParentReport", Config: &ir.HTTPConfig{Path: "/put", Method: "POST"}}}}}
 	}
